@@ -123,6 +123,10 @@ def same(r1, r2, tol=1e-12):
     return bad
 
 
+def nothing(r):
+    return r is None or (isinstance(r, tuple) and len(r) > 0 and r[0] is None)
+
+
 # ---------------------------------------------------------------- A. every atom with data
 thorough = tier == "thorough"
 for a in pool.with_sld:
@@ -139,7 +143,7 @@ for a in pool.with_sld:
                 fail("C03:atom-vs-one-atom-compound",
                      "%r.neutron.scattering(wavelength=%r) differs from neutron_scattering of the one-atom compound at "
                      "the atom's density in %s" % (a, w, ", ".join(bad)), atom=repr(a), wavelength=w, outputs=bad)
-        elif (r0 is None) != (r2 is None) or isinstance(r0, BaseException) or isinstance(r2, BaseException):
+        elif nothing(r0) != nothing(r2) or isinstance(r0, BaseException) or isinstance(r2, BaseException):
             fail("C03:atom-vs-one-atom-compound", "%r: direct query %r, one-atom compound %r" % (a, r2, r0), atom=repr(a))
     stats["atoms_swept"] += 1
     if thorough or rng.random() < 0.15:
